@@ -759,3 +759,69 @@ func tripleTypenameOp(s *Schema, tag string, abstract bool) *Def {
 	}
 	return nil
 }
+
+// OpFlattenAbstractPlainOp: an operation-level `flatten: true` (applied only where it is valid)
+// over an interface-typed field that selects plain fields only: nothing is flattened there, and
+// the field stays an interface with its `__typename` dispatch.
+func OpFlattenAbstractPlainOp(s *Schema, tag string) *Def {
+	for _, f := range s.FieldsOf("Query") {
+		td := s.Get(f.Type.Base())
+		if td == nil || td.Kind != "INTERFACE" {
+			continue
+		}
+		req := false
+		for _, a := range f.Args {
+			if a.Type.NonNull && a.Default == "" {
+				req = true
+			}
+		}
+		if req {
+			continue
+		}
+		leaf := ""
+		for _, lf := range td.Fields {
+			if s.IsLeaf(lf.Type.Base()) && len(lf.Args) == 0 {
+				leaf = lf.Name
+			}
+		}
+		if leaf == "" {
+			continue
+		}
+		op := "Hz" + tag + "Q"
+		return &Def{Kind: "query", Name: op, Text: fmt.Sprintf("# @genqlient(flatten: true)\nquery %s {\n  %s {\n    %s\n  }\n}\n", op, f.Name, leaf)}
+	}
+	return nil
+}
+
+// OmitemptyFalseOp: an input-object typed variable with an explicit `omitempty: false` (and one
+// without any option): under use_struct_references the explicit option must win over the default.
+func OmitemptyFalseOp(s *Schema, tag string) *Def {
+	for _, f := range s.FieldsOf("Query") {
+		var in *Arg
+		ok := true
+		for _, a := range f.Args {
+			d := s.Get(a.Type.Base())
+			switch {
+			case d != nil && d.Kind == "INPUT" && a.Type.Elem == nil && !a.Type.NonNull:
+				if in == nil {
+					in = a
+				}
+			case a.Type.NonNull && a.Default == "":
+				ok = false
+			}
+		}
+		if in == nil || !ok {
+			continue
+		}
+		sel := fmt.Sprintf("  a: %s(%s: $keep)", f.Name, in.Name)
+		sel2 := fmt.Sprintf("  b: %s(%s: $plain)", f.Name, in.Name)
+		if !s.IsLeaf(f.Type.Base()) {
+			sel += " {\n    __typename\n  }"
+			sel2 += " {\n    __typename\n  }"
+		}
+		op := "Hz" + tag + "Q"
+		return &Def{Kind: "query", Name: op, Text: fmt.Sprintf(
+			"query %s(\n  # @genqlient(omitempty: false)\n  $keep: %s,\n  $plain: %s,\n) {\n%s\n%s\n}\n", op, in.Type.String(), in.Type.String(), sel, sel2)}
+	}
+	return nil
+}
